@@ -9,7 +9,7 @@
 From Coq Require Import NArith List Permutation.
 From Blue Require Import Gen.Const_Setsum Setsum.Model Setsum.Proofs Setsum.Props_C14.
 From Blue Require Import Books.Model Books.ProofsGroup Books.ProofsChain Books.ProofsVerify Books.ProofsGc
-                         Books.ProofsStore Books.ProofsTamper Books.ProofsDigit.
+                         Books.ProofsStore Books.ProofsTamper Books.ProofsDigit Books.ProofsHex Books.ProofsRaw.
 Import ListNotations.
 Open Scope N_scope.
 
@@ -126,21 +126,61 @@ Proof.
   now apply frags_end_canonical; [apply zero_canonical|..].
 Qed.
 
-(* 4b. PARTIAL.  Full statement wanted: "if cs' is the 64-character hexdigest of a canonical setsum s
-   with ONE character replaced by a different hex digit, then from_hexdigest cs' = Some s' with
-   s' <> s" (so that a changed digit always is a changed setsum in the sense of theorem 4).
-   Proved here: its arithmetic core.  One changed hex digit changes one 32-bit little-endian column
-   by d * 16^pos (1 <= d <= 15, pos < 8); from_digest reduces a column >= p by one subtraction of p
-   (the repair of F10), and the result never is the old canonical column, for each of the setsum
-   primes as re-extracted from the source.  Missing: the string-level plumbing (position of the
-   character -> byte -> column; the other seven columns are untouched).  The tamper campaign of
-   checks/c04.py exercises exactly this on the real code and on the extracted from_hexdigest. *)
-Theorem C04_hex_digit_tamper_changes_column_partial : forall p c c' d pos,
+(* 4b. The same on the hex STRINGS the manifest holds.  First the digest itself: the 64-character
+   hexdigest of a canonical setsum with the character at ANY position replaced by a hex digit
+   (0-9, a-f, A-F) of another value parses to a DIFFERENT canonical setsum.  (The character is one
+   nibble of one byte of one little-endian column; the column moves by d * 16^pos, which the single
+   subtraction of the prime in from_digest cannot undo for any of the setsum primes as re-extracted
+   from the source; the other seven columns are untouched.  Every character of a hexdigest is a hex
+   digit, so the hypothesis on the old character is never vacuous: hexdigest_chars.) *)
+Theorem C04_hex_digit_tamper_changes_setsum : forall s i c' v v', canonical s -> (i < 64)%nat ->
+  hexval c' = Some v' -> hexval (nth i (hexdigest s) 0) = Some v -> v' <> v ->
+  exists s', from_hexdigest (replace_nth i c' (hexdigest s)) = Some s' /\ s' <> s /\ canonical s'.
+Proof. exact hex_digit_tamper. Qed.
+
+Theorem C04_hex_digit_tamper_changes_column : forall p c c' d pos,
   In p primes -> c < p -> 1 <= d <= 15 -> pos < 8 ->
   (c' = c + d * 16 ^ pos \/ c = c' + d * 16 ^ pos) -> reduce_col p c' <> c.
 Proof.
   intros p c c' d pos Hp Hc Hd Hpos Hch.
   exact (digit_change_changes_column p c c' (d * 16 ^ pos) Hp (in_digit_deltas d pos Hd Hpos) Hc Hch).
+Qed.
+
+(* ... then the verifier: in any balanced log as the store renders it, replace ONE character at ANY
+   position i < 64 of ONE digest string of one transaction (f selects I, O, D, the k-th added or the
+   k-th removed digest; the edit is not the first of its fragment) by a hex digit of another value:
+   the pass over the log is rejected.  What follows the tampered fragment is arbitrary. *)
+Theorem C04_verifier_rejects_hex_digit_tamper : forall H coll disk pre t0 tpre t tpost post f i c' cs v v',
+  Forall (Forall txn_canon) (pre ++ [t0 :: tpre ++ t :: tpost]) ->
+  frags_ok zero (pre ++ [t0 :: tpre ++ t :: tpost]) ->
+  Forall (Forall (gc_pass H coll disk)) pre ->
+  get_str (render t) f = Some cs -> (i < 64)%nat ->
+  hexval c' = Some v' -> hexval (nth i cs 0) = Some v -> v' <> v ->
+  rejects (verify_frags H coll disk
+             (map (map render) pre ++ (render t0 :: map render tpre ++ tamper_raw (render t) f i c' :: map render tpost) :: post) zero).
+Proof.
+  intros H coll disk pre t0 tpre t tpost post f i c' cs v v' Hc Hok Hgc Hg Hi Hv' Hv Hne.
+  apply Forall_app in Hc. destruct Hc as [Hc1 Hc2]. inversion Hc2 as [|? ? Hcf _]; subst.
+  apply frags_ok_snoc in Hok. destruct Hok as [Hok1 Hok2].
+  apply verify_frags_rejects_raw; try assumption; [apply zero_canonical|].
+  apply (verify_one_rejects_hex_tamper H coll disk _ t0 tpre t tpost f i c' cs v v'); try assumption.
+  now apply frags_end_canonical; [apply zero_canonical|..].
+Qed.
+
+(* ... and one character of the O of a roll-up *)
+Theorem C04_verifier_rejects_hex_digit_tamper_rollup_O : forall H coll disk pre t0 tpost post i c' v v',
+  Forall (Forall txn_canon) (pre ++ [t0 :: tpost]) -> frags_ok zero (pre ++ [t0 :: tpost]) ->
+  Forall (Forall (gc_pass H coll disk)) pre -> (i < 64)%nat ->
+  hexval c' = Some v' -> hexval (nth i (hexdigest (tO t0)) 0) = Some v -> v' <> v ->
+  rejects (verify_frags H coll disk
+             (map (map render) pre ++ (tamper_raw (render t0) DO i c' :: map render tpost) :: post) zero).
+Proof.
+  intros H coll disk pre t0 tpost post i c' v v' Hc Hok Hgc Hi Hv' Hv Hne.
+  apply Forall_app in Hc. destruct Hc as [Hc1 Hc2]. inversion Hc2 as [|? ? Hcf _]; subst.
+  apply frags_ok_snoc in Hok. destruct Hok as [Hok1 Hok2].
+  apply verify_frags_rejects_raw; try assumption; [apply zero_canonical|].
+  apply (verify_one_rejects_hex_tamper_rollup_O H coll disk _ t0 tpost i c' v v'); try assumption.
+  now apply frags_end_canonical; [apply zero_canonical|..].
 Qed.
 
 (* the same for a history of the store: its log satisfies the hypotheses of the two theorems above *)
